@@ -30,7 +30,7 @@ CONTRACTS.update({
     props=['C20', 'C07'], self_class='ZoneSet', self_fields=LIVE_SET['fields'],
     params={'child': 'oneof[obj:ZoneItemT,obj:Attribute]'}, returns='none',
     modifies=['self._eflr_item_list'],
-    raises={'TypeError': 'not isinstance(child, ZoneItem)'},
+    raises={'TypeError': 'not isinstance(child, self.item_type)'},
     ensures=[('appended-last', 'self._eflr_item_list == old(self._eflr_item_list) + [child]')],
     exc_ensures=[('rejected-child-not-registered', 'self._eflr_item_list == old(self._eflr_item_list)')]),
  'EFLRItem.__init__[ZoneItem]': dict(
